@@ -111,6 +111,12 @@ func scenarioC09(rc *RunCtx) *Violation {
 	var prevFresh *Canon
 	for _, r := range recs {
 		hist = append(hist, strings.Join(r.Edits, "; "))
+		if strings.Contains(hist[len(hist)-1], "base config file appears") {
+			rc.Probe("tsconfig_base_appears")
+			if r.HasDirty {
+				rc.Probe("tsconfig_base_appears_in_watch_mode")
+			}
+		}
 		if r.Aborted != "" {
 			rc.Probe("context_error")
 			debugErr(rc, r)
